@@ -2,6 +2,8 @@ mod common;
 mod c04;
 mod c09;
 mod c10;
+mod c14;
+mod stream_mock;
 mod c11;
 mod tsx_client;
 mod tsx_server;
@@ -16,6 +18,7 @@ fn main() {
     let cases = common::read_cases(&args[2]);
     match args[1].as_str() {
         "c10" => c10::run(&cases),
+        "c14" => c14::run(&cases),
         "c09" => c09::run(&cases),
         "c11" => c11::run(&cases),
         "c04" => c04::run(&cases),
